@@ -1050,6 +1050,151 @@ func main() {
 	}
 	fmt.Fprintf(&lzb, "def lazyFieldWrites : List (String × String) := [%s]\n", strings.Join(pairs, ", "))
 	fmt.Printf("fact F15 %d field writes in lazyproto\n", len(wrows))
+	// F17: package-level variables that code of lazyproto MUTATES at run time (anything but the variable's own
+	// initialiser): assignments to the variable / an element / a field / through it, ++/--, delete, clear, copy into
+	// it, append on it, its address taken, a pointer-receiver method called on it, or — for maps, slices, pointers and
+	// channels — the variable handed to another function.  Variables of the sync and sync/atomic packages are
+	// synchronised by construction and not listed.  A Decoder is documented as usable from many goroutines and
+	// results are per goroutine, so any such variable is state shared by all goroutines without the pool's ordering.
+	gwrites := map[string]bool{}
+	syncType := func(t types.Type) bool {
+		if p, ok := t.(*types.Pointer); ok {
+			t = p.Elem()
+		}
+		if n, ok := t.(*types.Named); ok && n.Obj().Pkg() != nil {
+			pp := n.Obj().Pkg().Path()
+			return pp == "sync" || pp == "sync/atomic"
+		}
+		return false
+	}
+	var globalRoot func(e ast.Expr) *types.Var
+	globalRoot = func(e ast.Expr) *types.Var {
+		switch e := e.(type) {
+		case *ast.Ident:
+			if v, ok := lz.info.Uses[e].(*types.Var); ok && v.Pkg() != nil && v.Parent() == v.Pkg().Scope() {
+				return v
+			}
+		case *ast.ParenExpr:
+			return globalRoot(e.X)
+		case *ast.IndexExpr:
+			return globalRoot(e.X)
+		case *ast.SliceExpr:
+			return globalRoot(e.X)
+		case *ast.StarExpr:
+			return globalRoot(e.X)
+		case *ast.SelectorExpr:
+			if x, ok := e.X.(*ast.Ident); ok {
+				if _, isPkg := lz.info.Uses[x].(*types.PkgName); isPkg {
+					if v, ok := lz.info.Uses[e.Sel].(*types.Var); ok && v.Pkg() != nil && v.Parent() == v.Pkg().Scope() {
+						return v // a package-level variable of another package
+					}
+					return nil
+				}
+			}
+			return globalRoot(e.X)
+		}
+		return nil
+	}
+	gname := func(v *types.Var) string {
+		if lz.pkg != nil && v.Pkg() == lz.pkg {
+			return v.Name()
+		}
+		return v.Pkg().Path() + "." + v.Name()
+	}
+	noteGlobal := func(e ast.Expr, fname, kind string) {
+		if v := globalRoot(e); v != nil && !syncType(v.Type()) {
+			gwrites[gname(v)+"\x00"+fname+"\x00"+kind] = true
+		}
+	}
+	scanGlobals := func(body ast.Node, fname string) {
+		ast.Inspect(body, func(n ast.Node) bool {
+			switch st := n.(type) {
+			case *ast.AssignStmt:
+				if st.Tok != token.DEFINE {
+					for _, l := range st.Lhs {
+						noteGlobal(l, fname, "assign")
+					}
+				}
+			case *ast.IncDecStmt:
+				noteGlobal(st.X, fname, "assign")
+			case *ast.RangeStmt:
+				if st.Tok == token.ASSIGN {
+					if st.Key != nil {
+						noteGlobal(st.Key, fname, "assign")
+					}
+					if st.Value != nil {
+						noteGlobal(st.Value, fname, "assign")
+					}
+				}
+			case *ast.UnaryExpr:
+				if st.Op == token.AND {
+					noteGlobal(st.X, fname, "address-taken")
+				}
+			case *ast.CallExpr:
+				if id, ok := st.Fun.(*ast.Ident); ok {
+					if _, isBuiltin := lz.info.Uses[id].(*types.Builtin); isBuiltin && len(st.Args) > 0 {
+						switch id.Name {
+						case "delete", "clear", "copy", "append":
+							noteGlobal(st.Args[0], fname, id.Name)
+						}
+						return true
+					}
+				}
+				if sel, ok := st.Fun.(*ast.SelectorExpr); ok {
+					if fn, ok := lz.info.Uses[sel.Sel].(*types.Func); ok {
+						if sig, ok := fn.Type().(*types.Signature); ok && sig.Recv() != nil {
+							if _, ptr := sig.Recv().Type().(*types.Pointer); ptr {
+								noteGlobal(sel.X, fname, "pointer-method:"+sel.Sel.Name)
+							}
+						}
+					}
+				}
+				for _, a := range st.Args {
+					if v := globalRoot(a); v != nil {
+						if tv, ok := lz.info.Types[a]; ok && tv.Type != nil {
+							switch tv.Type.Underlying().(type) {
+							case *types.Map, *types.Slice, *types.Pointer, *types.Chan:
+								noteGlobal(a, fname, "passed-to:"+callName(st))
+							}
+						}
+					}
+				}
+			}
+			return true
+		})
+	}
+	for _, f := range lz.files {
+		for _, dcl := range f.Decls {
+			switch d := dcl.(type) {
+			case *ast.FuncDecl:
+				if d.Body != nil && d.Name.Name != "init" {
+					scanGlobals(d.Body, d.Name.Name)
+				}
+			case *ast.GenDecl:
+				// function literals in initialisers run when they are called, not when the package is initialised
+				ast.Inspect(d, func(n ast.Node) bool {
+					if fl, ok := n.(*ast.FuncLit); ok {
+						scanGlobals(fl.Body, "func-literal-in-declaration")
+						return false
+					}
+					return true
+				})
+			}
+		}
+	}
+	var grows []string
+	for w := range gwrites {
+		grows = append(grows, w)
+	}
+	sort.Strings(grows)
+	gtriples := make([]string, len(grows))
+	for i, w := range grows {
+		parts := strings.SplitN(w, "\x00", 3)
+		gtriples[i] = fmt.Sprintf("(%q, %q, %q)", parts[0], parts[1], parts[2])
+		fmt.Printf("fact F17 package-level variable %s mutated by %s (%s)\n", parts[0], parts[1], parts[2])
+	}
+	fmt.Fprintf(&lzb, "/-- (package-level variable, function, how) for every run-time mutation of a package-level variable in lazyproto -/\ndef lazyGlobalWrites : List (String × String × String) := [%s]\n", strings.Join(gtriples, ", "))
+	fmt.Printf("fact F17 %d run-time mutations of package-level variables in lazyproto\n", len(grows))
 	lzb.WriteString("\nend Csproto.Generated\n")
 	writeIfChanged(filepath.Join(*out, "Lazy.lean"), []byte(lzb.String()))
 }
